@@ -833,8 +833,22 @@ void float_case(vt::Rng& rng, int64_t icase)
         const auto all   = std::numeric_limits<tensor_size_t>::max();
         const auto needx = static_cast<tensor_size_t>(sizeof(scalar_t)) * ns * isize, needt = static_cast<tensor_size_t>(sizeof(scalar_t)) * ns * osize;
         const auto small = [&](const tensor_size_t need) { return rng.pick(std::vector<tensor_size_t>{0, 1, need / 2, need - 1}); };
-        switch (rng.range(0, 5))
+        switch (rng.range(0, 7))
         {
+        case 6: // cached with another scaling mode, the mode changed WITHOUT caching again: the loops deliver the values of the new mode
+            it.scaling(other);
+            it.cache_flatten(all);
+            it.cache_targets(all);
+            it.scaling(mode);
+            break;
+        case 7: // ... the same, then a budget that is too small for caching again
+            it.scaling(other);
+            it.cache_flatten(all);
+            it.cache_targets(all);
+            it.scaling(mode);
+            cacheOK = cacheOK && !it.cache_flatten(small(needx));
+            cacheOK = cacheOK && !it.cache_targets(small(needt));
+            break;
         case 0: // maybe cached
             it.scaling(mode);
             if (rng.coin())
@@ -898,15 +912,29 @@ void float_case(vt::Rng& rng, int64_t icase)
             });
         it.loop([&](tensor_range_t range, size_t, tensor2d_cmap_t inputs) { gotx2.slice(range) = inputs; });
         it.loop([&](tensor_range_t range, size_t, tensor4d_cmap_t targets) { gott2.slice(range) = targets; });
-        const auto close = [](const double got, const double ref) { return std::fabs(got - ref) <= 1e-12 * (1.0 + std::fabs(ref)); };
+        // tolerance: an iterator may scale with an algebraically equivalent formula, the rounding is then amplified by |value| / spread for
+        // near-constant columns (as for the advertised range); categorical and degenerate columns (left as they are): 1e-12
+        const auto tolerance = [](const ref_t& r, const bool rescaled)
+        {
+            if (!rescaled || r.cnt < 2 || !(r.hi - r.lo >= 1e-7L))
+            {
+                return 1e-12;
+            }
+            const auto big = std::max<long double>(std::fabs(r.lo), std::fabs(r.hi));
+            return static_cast<double>(1e-9L + 64 * 2.3e-16L * big / (r.hi - r.lo));
+        };
+        const auto close = [](const double got, const double ref, const double tol) { return std::fabs(got - ref) <= tol * (1.0 + std::fabs(ref)); };
         for (tensor_size_t i = 0; i < raw.size(); ++i)
         {
+            const auto c   = static_cast<size_t>(i % isize);
+            const auto tol = tolerance(refs[c], !categorical[c]);
             const auto ref = std::isfinite(refx(i)) ? refx(i) : 0.0;
-            iteratorOK     = iteratorOK && close(gotx(i), ref) && close(gotx2(i), ref);
+            iteratorOK     = iteratorOK && close(gotx(i), ref, tol) && close(gotx2(i), ref, tol);
         }
         for (tensor_size_t i = 0; i < rawt.size(); ++i)
         {
-            iteratorOK = iteratorOK && (!std::isfinite(reft(i)) || (close(gott(i), reft(i)) && close(gott2(i), reft(i))));
+            const auto tol = tolerance(trefs[static_cast<size_t>(i % osize)], target_kind == 0);
+            iteratorOK     = iteratorOK && (!std::isfinite(reft(i)) || (close(gott(i), reft(i), tol) && close(gott2(i), reft(i), tol)));
         }
         // ... and the iterator's statistics are those of the samples it was given
         for (tensor_size_t c = 0; c < isize; ++c)
